@@ -18,6 +18,7 @@ type Env struct {
 	st     *State
 	old    *State
 	vars   map[string]Val
+	params map[string]Val // initial parameter values: used when no current source value is known
 	pkg    *types.Package
 	useSrc bool
 	pos    token.Pos
@@ -39,9 +40,7 @@ func (g *Gen) envFor(fr *Frame, st *State) *Env {
 	} else if fr.fn != nil && fr.fn.Parent() != nil && fr.fn.Parent().Pkg != nil {
 		e.pkg = fr.fn.Parent().Pkg.Pkg
 	}
-	for k, v := range fr.params {
-		e.vars[k] = v
-	}
+	e.params = fr.params
 	return e
 }
 
@@ -123,6 +122,16 @@ func (g *Gen) sortOfTypeName(name string, pkg *types.Package) (string, types.Typ
 
 func (g *Gen) lookupType(name string, pkg *types.Package) types.Type {
 	pk, tn := "", name
+	if i := strings.LastIndex(name, "."); i >= 0 && strings.Contains(name, "/") {
+		// full import path: github.com/x/y/types.Name
+		path := name[:i]
+		if p := g.findByPath(path); p != nil {
+			if o, ok := p.Scope().Lookup(name[i+1:]).(*types.TypeName); ok {
+				return o.Type()
+			}
+		}
+		return nil
+	}
 	if i := strings.Index(name, "."); i >= 0 {
 		pk, tn = name[:i], name[i+1:]
 	}
@@ -572,9 +581,17 @@ func (g *Gen) evalIdent(x *CExpr, env *Env) (Val, error) {
 					return g.loadPtr(env.st, p), nil
 				}
 			} else {
+				if v.Ptr != nil && v.Ptr.Buf {
+					if cur, ok := env.st.cells[v.Ptr.Cell]; ok {
+						v.T = cur.T
+					}
+				}
 				return v, nil
 			}
 		}
+	}
+	if v, ok := env.params[name]; ok {
+		return v, nil
 	}
 	if env.st != nil {
 		if v, ok := g.ghostLoad(name, env); ok {
@@ -646,7 +663,9 @@ func (g *Gen) evalSel(x *CExpr, env *Env) (Val, error) {
 	}
 	if !env.noHeap {
 		if p, err := g.place(x, env); err == nil {
-			return g.loadPtr(env.st, p), nil
+			lv := g.loadPtr(env.st, p)
+			g.arrayLenFact(lv)
+			return lv, nil
 		}
 	}
 	bv, err := g.eval(x.Args[0], env)
@@ -671,6 +690,7 @@ func (g *Gen) evalSel(x *CExpr, env *Env) (Val, error) {
 					if cst.Field(i).Name() == fn {
 						ft := cst.Field(i).Type()
 						cur = Val{T: fmt.Sprintf("(%s %s)", g.fieldSel(key, fn, i), cur.T), S: g.sortOf(ft), Ty: ft}
+						g.arrayLenFact(cur)
 						curT = ft
 						break
 					}
@@ -916,7 +936,8 @@ func (g *Gen) evalCall(x *CExpr, env *Env) (Val, error) {
 			return Val{}, err
 		}
 		if len(args) == 1 && args[0].S == "Str" {
-			return Val{T: fmt.Sprintf("(isnil$ %s)", args[0].T), S: "Bool", Ty: types.Typ[types.Bool]}, nil
+			// nil-ness of empty byte slices is not tracked: isnilb(x) means "x has no bytes"
+			return Val{T: fmt.Sprintf("(= (slen %s) 0)", args[0].T), S: "Bool", Ty: types.Typ[types.Bool]}, nil
 		}
 		return Val{}, fmt.Errorf("isnilb needs a byte slice")
 	case "closed":
@@ -964,6 +985,25 @@ func (g *Gen) evalCall(x *CExpr, env *Env) (Val, error) {
 			return Val{T: fmt.Sprintf("(%s %s)", un, v.T), S: g.sortOf(t), Ty: t}, nil
 		}
 		return Val{}, fmt.Errorf("cast(x, \"type\")")
+	case "errAs": // errAs(err, "*pkg.Type"): errors.As would find that type in err's chain
+		if len(x.Args) == 2 && x.Args[1].Op == "str" {
+			v, err := g.eval(x.Args[0], env)
+			if err != nil {
+				return Val{}, err
+			}
+			tn := x.Args[1].Name
+			ptr := strings.HasPrefix(tn, "*")
+			t := g.lookupType(strings.TrimPrefix(tn, "*"), env.pkg)
+			if t == nil {
+				return Val{}, fmt.Errorf("unknown type %s", tn)
+			}
+			if ptr {
+				t = types.NewPointer(t)
+			}
+			g.vc.decl("p$errAs", "(declare-fun p$errAs (Int Int) Bool)")
+			return Val{T: fmt.Sprintf("(p$errAs %s %d)", v.T, g.typeTag(t)), S: "Bool", Ty: types.Typ[types.Bool]}, nil
+		}
+		return Val{}, fmt.Errorf("errAs(err, \"type\")")
 	case "iface": // iface(x): x converted to an interface value (as the compiler does implicitly)
 		if err := evalArgs(); err != nil {
 			return Val{}, err
@@ -1226,4 +1266,27 @@ func splitArraySort(s string) []string {
 		}
 	}
 	return nil
+}
+
+func (g *Gen) findByPath(path string) *types.Package {
+	seen := map[*types.Package]bool{}
+	var found *types.Package
+	var visit func(p *types.Package, depth int)
+	visit = func(p *types.Package, depth int) {
+		if found != nil || seen[p] || depth > 6 {
+			return
+		}
+		seen[p] = true
+		if p.Path() == path {
+			found = p
+			return
+		}
+		for _, imp := range p.Imports() {
+			visit(imp, depth+1)
+		}
+	}
+	for _, sp := range g.pkgs {
+		visit(sp.Pkg, 0)
+	}
+	return found
 }
